@@ -1,2 +1,140 @@
-From Coq Require Import List Bool NArith.
-From MV Require Import Base.Bytes Model.ServerPlayback.
+(* Props/C52.v -- Server replay serves recorded responses only to matching requests, in order.
+   Statements only; each is closed by [exact] of a lemma proved in Proofs/ServerPlayback*.v.
+   Conventions: [after o0 h] is the state reached from an empty replay list under options o0 by
+   the history h of load / add / clear / request / option-update operations (any history, any
+   options); [pending m] lists the recordings still held by flowmap; [same_key] is the matching
+   key of the statement, field by field; rec_id is the recording sequence number. *)
+From Coq Require Import ZArith List Bool Permutation Sorted.
+From MV Require Import Base.Bytes Model.ServerPlayback Proofs.ServerPlaybackKey Proofs.ServerPlaybackMap
+  Proofs.ServerPlaybackMain Proofs.ServerPlaybackC52.
+Import ListNotations.
+
+(* [after] is the last state of the trace that the correspondence check executes with [run]. *)
+Theorem C52_after_is_run_last : forall o0 h,
+  after o0 h = last (map fst (run (init o0) h)) (init o0).
+Proof. exact after_is_run_last. Qed.
+Print Assumptions C52_after_is_run_last.
+
+(* Two requests get the same _hash key exactly when method, scheme, path, non-ignored query
+   parameters, and unless ignored host, port, body or non-ignored form fields, plus the
+   configured headers are equal. *)
+Theorem C52_key_is_matching_key : forall o a b, _hash o a = _hash o b <-> same_key o a b.
+Proof. exact hash_eq_iff. Qed.
+Print Assumptions C52_key_is_matching_key.
+
+(* After any history flowmap is a correct index under the CURRENT options: each bucket key is
+   the key of every recording in it, keys are distinct, no bucket is empty. *)
+Theorem C52_index_invariant : forall o0 h, Inv (st_opts (after o0 h)) (st_map (after o0 h)).
+Proof. exact index_invariant. Qed.
+Print Assumptions C52_index_invariant.
+
+(* A served response comes from a pending recording that has a response and whose matching key
+   equals the request key under the current options. *)
+Theorem C52_served_only_matching : forall o0 h rq r m2,
+  request_hook (st_opts (after o0 h)) rq (st_map (after o0 h)) = (Served r, m2) ->
+  In r (pending (st_map (after o0 h))) /\ rec_has_resp r = true
+  /\ same_key (st_opts (after o0 h)) (rec_req r) rq.
+Proof. exact served_only_matching. Qed.
+Print Assumptions C52_served_only_matching.
+
+(* The decision of the request hook: replay inactive (nothing pending) forwards; otherwise a
+   request is served iff some pending recording with a response matches, and an unmatched
+   request is killed / answered with the configured status / forwarded as configured. *)
+Theorem C52_decision : forall o0 h rq,
+  let s := after o0 h in
+  let out := fst (request_hook (st_opts s) rq (st_map s)) in
+  (st_map s = [] -> out = Forward) /\
+  (st_map s <> [] ->
+     (live (st_opts s) rq (st_map s) -> exists r, out = Served r) /\
+     (~ live (st_opts s) rq (st_map s) -> out = unmatched_action (st_opts s))).
+Proof. exact decision. Qed.
+Print Assumptions C52_decision.
+
+(* pop(0) never hits an empty bucket *)
+Theorem C52_no_index_error : forall o0 h rq,
+  fst (request_hook (st_opts (after o0 h)) rq (st_map (after o0 h))) <> Raised.
+Proof. exact never_index_error. Qed.
+Print Assumptions C52_no_index_error.
+
+(* Without reuse a request removes from the pending recordings exactly the served one and the
+   response-less recordings of the same key that were skipped; nothing else is lost or added. *)
+Theorem C52_pop_conserves : forall o0 h rq,
+  let s := after o0 h in
+  reuse_on (st_opts s) = false ->
+  exists skipped, Forall (fun x => noresp x /\ matches (st_opts s) rq x) skipped /\
+    Permutation (pending (st_map s))
+      (skipped ++ served_list (fst (request_hook (st_opts s) rq (st_map s)))
+               ++ pending (snd (request_hook (st_opts s) rq (st_map s)))).
+Proof. exact pop_conserves. Qed.
+Print Assumptions C52_pop_conserves.
+
+(* Over a whole history (reuse may be switched on and off): everything loaded is, as a multiset,
+   what was served while reuse was off + skipped response-less recordings + what replay.server /
+   replay.server.stop discarded + what is still pending. *)
+Theorem C52_history_accounting : forall o0 h,
+  exists skipped, Forall noresp skipped /\
+    Permutation (loaded h)
+      (served_pop (init o0) h ++ skipped ++ discarded (init o0) h ++ pending (st_map (after o0 h))).
+Proof. exact history_accounting. Qed.
+Print Assumptions C52_history_accounting.
+
+(* Hence, without reuse, each recording is served at most once. *)
+Theorem C52_served_at_most_once : forall o0 h,
+  NoDup (ids (loaded h)) -> NoDup (ids (served_pop (init o0) h)).
+Proof. exact served_at_most_once. Qed.
+Print Assumptions C52_served_at_most_once.
+
+(* With reuse the same request gets the same answer every time and the state never changes
+   (which recording that is: C52_order_partial / C52_served_only_matching). *)
+Theorem C52_reuse_first_every_time : forall o0 h rq n,
+  let s := after o0 h in
+  reuse_on (st_opts s) = true ->
+  run s (repeat (ORequest rq) n)
+  = repeat (s, Some (fst (request_hook (st_opts s) rq (st_map s)))) n.
+Proof. exact reuse_first_every_time. Qed.
+Print Assumptions C52_reuse_first_every_time.
+
+(* Changing options (re-indexing included) neither loses nor duplicates a pending recording;
+   that the new index is right for the new options is C52_index_invariant. *)
+Theorem C52_reindex_conserves : forall o0 h upd,
+  let s := after o0 h in
+  Permutation (pending (st_map (fst (step s (OConfigure upd))))) (pending (st_map s)).
+Proof. exact reindex_conserves. Qed.
+Print Assumptions C52_reindex_conserves.
+
+(* FULL-STRENGTH ORDER STATEMENT IS FALSE (known finding reindex-order): with recording numbers
+   increasing along the history, the served recording is not always the earliest pending
+   matching recording with a response.  Witness: recordings for hosts a, b, a; then
+   server_replay_ignore_host=true re-indexes by concatenating the old buckets (0 2 | 1); after
+   one request the next one is served recording 2 while recording 1 is pending. *)
+Theorem C52_order_refuted :
+  exists o0 h rq, recorded_in_order h /\ ~ earliest_served (after o0 h) rq.
+Proof. exact order_refuted. Qed.
+Print Assumptions C52_order_refuted.
+
+(* Partial: the guard reindex_sorted is the complement of the finding -- every update naming a
+   hash option starts from a flowmap whose buckets, concatenated in dict order, are in recording
+   order.  Then, with or without reuse, the served recording is the earliest-recorded pending
+   recording with a response whose key matches. *)
+Theorem C52_order_partial : forall o0 h rq,
+  recorded_in_order h -> reindex_sorted (init o0) h -> earliest_served (after o0 h) rq.
+Proof. exact order_partial. Qed.
+Print Assumptions C52_order_partial.
+
+(* in particular for every history in which no update names a hash option *)
+Theorem C52_order_no_reindex : forall o0 h rq,
+  recorded_in_order h -> no_reindex h -> earliest_served (after o0 h) rq.
+Proof. exact order_no_reindex. Qed.
+Print Assumptions C52_order_no_reindex.
+
+(* The hypotheses are satisfiable on a history with a two-bucket re-index, two served requests
+   and one forwarded request; the key relation distinguishes the option sets. *)
+Theorem C52_nonvacuous :
+  recorded_in_order h_good /\ reindex_sorted (init opts0) h_good
+  /\ length (st_map (final (init opts0) [OLoad [FHttp (mkrec 0 host_a); FHttp (mkrec 1 host_b)]])) = 2%nat
+  /\ map snd (run (init opts0) h_good)
+     = [None; None; Some (Served (mkrec 0 host_a)); Some (Served (mkrec 1 host_b)); Some Forward]
+  /\ same_key (st_opts (after opts0 h_good)) (mkreq host_a) (mkreq host_z)
+  /\ ~ same_key opts0 (mkreq host_a) (mkreq host_z).
+Proof. exact nonvacuous. Qed.
+Print Assumptions C52_nonvacuous.
